@@ -30,6 +30,7 @@ OBLIGATIONS = [
     "Grog.C02.restore_total",
     "Grog.C02.dir_restore_total",
     "Grog.C02.reexec_subset",
+    "Grog.C02.reexec_subset_history",
     "Grog.C02.early_cutoff",
     "Grog.C02.key_location_free",
     "Grog.C02.globout_witness",
